@@ -676,8 +676,16 @@ class SQLiteStorage(SQLiteMixin):
                 content_claim = transaction.execute(
                     "select * from content_claim where stream_hash=?", (descriptor.stream_hash, )
                 ).fetchone()
+                owned = [row[0] for row in transaction.execute(
+                    "select blob_hash from blob where is_mine=1 and (blob_hash=? or blob_hash in "
+                    "(select blob_hash from stream_blob where stream_hash=?))",
+                    (descriptor.sd_hash, descriptor.stream_hash)
+                ).fetchall()]
                 delete_stream(transaction, descriptor)  # this will also delete the content claim
                 store_stream(transaction, sd_blob, descriptor)
+                transaction.executemany(
+                    "update blob set is_mine=1 where blob_hash=?", ((blob_hash,) for blob_hash in owned)
+                ).fetchall()
                 store_file(transaction, descriptor.stream_hash,
                            sanitize_file_name(os.path.basename(descriptor.suggested_file_name)),
                            download_directory, 0.0, 'stopped', content_fee=content_fee)
